@@ -176,7 +176,7 @@ func checkClauseSymbolsAlwaysDeclared(r *Run, op *packages.Package) {
 						}
 					}
 				}
-				for _, l := range pathConditions(fd.Body, call) {
+				for _, l := range controlConds(fd.Body, call) {
 					walk(l.Expr, l.Neg)
 				}
 				// an earlier `if clause.Flag { …; continue }` makes the rest of the loop body the flag-clear arm
